@@ -3,11 +3,11 @@ From Coq Require Import Extraction ExtrOcamlBasic ZArith List String.
 From GR Require Import Base.Result Adt.RefCache Adt.RetCache Adt.BlockOrder Adt.OffsetMap Adt.IdSet.
 Extraction Language OCaml.
 Extraction "c20_model.ml"
-  retarget get_references apply set_referent get_referent sym_get mk_rc
+  retarget get_references get_references_abandoned apply set_referent get_referent sym_get mk_rc
   rc_add rc_discard rc_clear rc_update any_return_edges block_return_edges block_proxy_return_edges empty_rcache
   with_return_cache
   adjacent_blocks remove_block add_detached_blocks insert_blocks_after
   getitem_off getitem_elem setitem_off setitem_elem delitem_off delitem_elem contains_off contains_elem
-  om_len om_bool om_iter node_keys pop_off setdefault_off
+  om_len om_bool om_iter node_keys pop_off setdefault_off inner_setitem inner_delitem
   ids_mem ids_add ids_discard ids_remove ids_len
   Z.add Z.of_nat String.eqb.
